@@ -21,9 +21,10 @@ ASSUMPTIONS = ["Python zlib.crc32 and hashlib.sha1 are correct independent imple
 
 def plan(tier):
     if tier == "quick":
-        return [("debug", 8, dict(nstr=2500, nfiles=40, maxfile=1 << 20))]
+        return [("debug", 16, dict(nstr=2500, nfiles=40, maxfile=1 << 20)), ("release", 2, dict(nstr=2500, nfiles=20, maxfile=1 << 20))]
     return [("debug", 16, dict(nstr=60000, nfiles=190, maxfile=4 << 20)),
-            ("release", 4, dict(nstr=20000, nfiles=40, maxfile=4 << 20, huge=True))]
+            ("release", 4, dict(nstr=20000, nfiles=40, maxfile=4 << 20, huge=True)),
+            ("miri", 8, dict(nstr=40, nfiles=4, maxfile=2000, small=True))]
 
 
 def bitcrc(data, init):
@@ -35,8 +36,10 @@ def bitcrc(data, init):
     return c
 
 
-def gen_string(rng, i):
-    if i <= 300:
+def gen_string(rng, i, small=False):
+    if small:
+        n = rng.choice([0, 1, 2, 3, 7, 8, 9, 15, 16, 17, 31, 32, 33, 63, 64, 65, 100, 255, 256, 257, rng.randint(0, 600)])
+    elif i <= 300:
         n = i
     else:
         n = rng.choice([1, 2, 3, 5, 8, 16, 17, 31, 32, 33, 63, 64, 65, 100, 255, 256, 257, 1000, 4095, 4096, rng.randint(0, 4096), rng.randint(0, 200)])
@@ -53,7 +56,7 @@ def gen_string(rng, i):
 def shard(ctx):
     rng, P = ctx.rng, ctx.params
     # ---- strings
-    strs = [gen_string(rng, i) for i in range(P["nstr"])]
+    strs = [gen_string(rng, i, P.get("small")) for i in range(P["nstr"])]
     if ctx.index == 0:
         strs += [bytes([c]) for c in range(128)] + [bytes(range(128)), bytes(range(127, -1, -1))]
     # case variants
@@ -96,13 +99,16 @@ def shard(ctx):
             ctx.stats.classes["case-pair"] += 1
     # ---- SHA-1 through FileInfo::new
     lens = [n for n in range(301) if n % ctx.nshards == ctx.index]
+    if P.get("small"):
+        lens = lens[::6]        # interpreter stage: a thin slice of the length sweep
     edges = [55, 56, 63, 64, 119, 120]
     for _ in range(P["nfiles"]):
         base = rng.choice([0, 64, 128, 1 << 10, 1 << 12, 1 << 16, rng.randrange(0, P["maxfile"], 64)])
         lens.append(min(P["maxfile"], base + rng.choice(edges + [rng.randrange(64)])))
     # lengths whose bit count crosses each byte of the 64-bit length field in the padding (2^8, 2^16, 2^24 bits; every length byte non-zero)
     bitlen = [31, 32, 33, 8191, 8192, 8193, (1 << 21) - 1, 1 << 21, (1 << 21) + 1, (1 << 21) + 64 * rng.randrange(1, 64) + rng.randrange(64), 0x01234567 // rng.choice([1, 2, 4])]
-    lens += [n for i, n in enumerate(bitlen) if i % ctx.nshards == ctx.index]
+    if not P.get("small"):
+        lens += [n for i, n in enumerate(bitlen) if i % ctx.nshards == ctx.index]
     if P.get("huge") and ctx.index == 0:
         lens.append((1 << 29) + rng.randrange(1, 200))      # >= 2^32 bits
     paths = []
